@@ -228,6 +228,9 @@ pub struct Gen<V> {
     pub alphabet: Vec<V>,
     pub max_len: usize,
     pub last: usize,
+    /// never generate edit-cursor scripts (C35 builds of delta columns: a panicking
+    /// cursor op double-panics in the cursor's Drop and aborts the worker)
+    pub no_cursor: bool,
 }
 
 impl<V: Val> Gen<V> {
@@ -237,7 +240,7 @@ impl<V: Val> Gen<V> {
         if alphabet.is_empty() {
             alphabet = V::batch(rng, 1, dom);
         }
-        Gen { dom, ms, alphabet, max_len, last: 0 }
+        Gen { dom, ms, alphabet, max_len, last: 0, no_cursor: false }
     }
     fn index(&mut self, rng: &mut Rng, len: usize) -> usize {
         let i = match rng.below(10) {
@@ -317,6 +320,11 @@ impl<V: Val> Gen<V> {
         let shrink = len > self.max_len;
         let grow = len < 24;
         let w: [u32; 13] = if shrink { [2, 10, 20, 2, 8, 2, 6, 2, 0, 0, 0, 4, 1] } else { [14, 7, 6, 8, 2, 1, 16, 10, 4, 5, 5, 8, 2] };
+        let mut w = w;
+        if self.no_cursor {
+            w[11] = 0;
+            w[10] = 0; // copy_ranges drives a cursor internally
+        }
         match rng.weighted(&w) {
             0 => {
                 let i = self.index(rng, len);
@@ -666,6 +674,7 @@ pub fn drive<K: Tgt>(cx: &mut Ctx, prop: &str, rng: &mut Rng, nops: usize, max_l
         reloaded: false,
     };
     let mut g = Gen::<K::V>::new(rng, dom, ms, max_len);
+    g.no_cursor = !check && K::FAMILY == Family::Delta;
     let every = rng.range(1, 4);
     let mut slabs = b.col.slab_count();
     for step in 0..=nops {
@@ -849,13 +858,18 @@ impl Check for C34 {
         "C34"
     }
     fn cases(&self, tier: Tier) -> u64 {
-        tier.pick(4800, 60_000)
+        tier.pick(4000, 80_000)
     }
     fn budget_s(&self, tier: Tier) -> u64 {
-        tier.pick(20, 400)
+        tier.pick(20, 380)
     }
     fn min_nontrivial(&self, tier: Tier) -> u64 {
         tier.pick(200, 2000)
+    }
+    fn panic_is_violation(&self) -> bool {
+        // an edit inside the documented preconditions that panics (or aborts the process
+        // through a second panic in a cursor's Drop) leaves the column unequal to the Vec
+        true
     }
     fn rule(&self) -> String {
         "case n drives column type n mod 24 (13 Column<T>, 5 PrefixColumn<T>, 5 DeltaColumn<T>, RawColumn) built with max_segments in {2..16,64}: an optional initial batch, then 20-200 (thorough: up to 2000) random insert/remove/remove_n/push/truncate/clear/splice/splice_runs/extend/copy_ranges/edit-cursor/reload ops mirrored on a Vec (values: long runs, alternation, progressions, sorted batches, boundary integers inside the documented domain, nulls, strings of length 0/127/128/16384). After every op len and to_vec are compared; every k-th op (k in 1..4) also iter, get(i) for all i, iter_range, runs expanded, scripted iterator walks (next/nth/advance_to/advance_by/set_max/shift/shift_next/next_run/suspend+try_resume/scan_to_value), prefix sums and inverse lookups, find_by_value/find_first/find_by_range, scope_to_value on sorted windows, check_invariants and validate_encoding. Non-trivial = slab count changed or >1, or a run >= 64, or a null present; distinct by (column type, hash of the op-kind sequence).".into()
